@@ -83,6 +83,7 @@ Proof. exact complexified_dot_hypotheses_satisfiable. Qed.
 
 (* ---------------------------------------------------------------- instances for the library's products *)
 (* scalar_mult / elementwise_mult: pointwise Cmult with torch broadcasting *)
+(* definitional: restates the model (up to cmul = Cmult / cconj = Cconj, which is the content) *)
 Theorem C15_scalar_mult_is_pointwise_Cmult : forall x y : tens C,
   scalar_mult ROps x y = of_opt RuntimeErr (tzip_bcast Cmult x y)
   /\ elementwise_mult ROps x y = of_opt RuntimeErr (tzip_bcast Cmult x y).
@@ -197,6 +198,7 @@ Theorem C15_outer_prod_is_x_conj_y : forall x y : list C,
 Proof. exact outer_prod_vectors. Qed.
 Print Assumptions C15_outer_prod_is_x_conj_y.
 
+(* definitional: restates the model (up to cmul = Cmult / cconj = Cconj, which is the content) *)
 Theorem C15_conj_is_pointwise_Cconj : forall x : tens C, conj ROps x = tmap Cconj x.
 Proof. exact conj_is. Qed.
 Print Assumptions C15_conj_is_pointwise_Cconj.
@@ -262,12 +264,26 @@ Proof.
 Qed.
 Print Assumptions C15_elementwise_division_is_Cdiv.
 
+(* the two real arguments are broadcast against each other (numpy's rule = tzip_bcast), as the code does *)
 Theorem C15_sigmoid_is_exp_over_one_plus_exp : forall (x y : tens R) (t : R),
   sigmoid ROps x y =
-    of_opt ValueErr (tzip_strict (fun a b => Cdiv (Cexp (a, b)) (Cplus (RtoC 1) (Cexp (a, b)))) x y)
+    of_opt ValueErr (tzip_bcast (fun a b => Cdiv (Cexp (a, b)) (Cplus (RtoC 1) (Cexp (a, b)))) x y)
   /\ csigmoid ROps t 0 = RtoC (exp t / (1 + exp t)).
-Proof. intros x y t; split; [exact (sigmoid_is x y) | exact (csigmoid_real t)]. Qed.
+Proof. intros x y t; exact (Logic.conj (sigmoid_is x y) (csigmoid_real t)). Qed.
 Print Assumptions C15_sigmoid_is_exp_over_one_plus_exp.
+
+Theorem C15_sigmoid_shapes : forall (u v : list R) (a b : R),
+  let sg := fun a b : R => Cdiv (Cexp (a, b)) (Cplus (RtoC 1) (Cexp (a, b))) in
+  (length u = length v -> sigmoid ROps (T1 u) (T1 v) = Ok (T1 (zipw sg u v)))
+  /\ sigmoid ROps (T1 [a]) (T1 v) = Ok (T1 (map (sg a) v))
+  /\ sigmoid ROps (T0 a) (T1 v) = Ok (T1 (map (sg a) v))
+  /\ sigmoid ROps (T1 u) (T1 [b]) = Ok (T1 (map (fun a => sg a b) u))
+  /\ (length u <> length v -> length u <> 1%nat -> length v <> 1%nat -> sigmoid ROps (T1 u) (T1 v) = ValueErr).
+Proof.
+  intros u v a b. exact (Logic.conj (sigmoid_vectors u v) (Logic.conj (proj1 (sigmoid_broadcast_left a v))
+    (Logic.conj (proj2 (sigmoid_broadcast_left a v)) (Logic.conj (sigmoid_broadcast_right u b) (sigmoid_rejects_non_broadcastable u v))))).
+Qed.
+Print Assumptions C15_sigmoid_shapes.
 
 (* ---------------------------------------------------------------- make_complex / real / imag *)
 Theorem C15_make_complex_round_trips : forall (z : tens C) (x y : tens R),
@@ -309,10 +325,8 @@ Theorem C15_rejects_view_aliasing_refuted :
 Proof. exact rejects_view_aliasing_refuted. Qed.
 Print Assumptions C15_rejects_view_aliasing_refuted.
 
-(* TARGET (not proved): for every pair of broadcastable operands of rank <= 4 and a fresh output buffer of
-   the broadcast shape, scalar_mult_out returns out holding the product and leaves every other storage
-   unchanged.  Missing: a shape calculus for the broadcasting tower (bzip nested four deep).
-   Proved for vectors of equal length: *)
+(* Fresh out= buffer, vectors of equal length (first version; the statement for every pair of broadcastable
+   operands of rank <= 4 is C15_fresh_out_buffer below, proved in QTheory.CplxOutR — this one is an instance). *)
 Theorem C15_fresh_out_buffer_partial : forall (h : @heap R) x y out (xs ys os : list C),
   b_id out <> b_id x -> b_id out <> b_id y -> b_store out <> b_store x -> b_store out <> b_store y ->
   h (b_store x) = T1 xs -> h (b_store y) = T1 ys -> h (b_store out) = T1 os ->
@@ -329,3 +343,66 @@ Example C15_fresh_out_buffer_hypotheses_satisfiable :
     h (b_store x) = T1 xs /\ h (b_store y) = T1 ys /\ h (b_store out) = T1 os /\
     length xs = length ys /\ length os = length xs /\ xs <> [].
 Proof. exact fresh_buffer_hypotheses_satisfiable. Qed.
+
+(* ---------------------------------------------------------------- out= buffers, all ranks *)
+From QTheory Require Import CplxOutR.
+
+(* The general statement behind C15_fresh_out_buffer_partial: for EVERY pair of operands of rank 0..4 that
+   the model's broadcasting accepts (scalar_mult x y = Ok p: any mix of ranks, size-1 dimensions stretched) and a
+   fresh output buffer of the shape of p (a distinct object on a storage distinct from both operands; shape
+   equality = equality after erasing the entries), scalar_mult(x, y, out=out) returns out itself, out holds
+   exactly scalar_mult x y (= pointwise Cmult with broadcasting, C15_scalar_mult_is_pointwise_Cmult), and every
+   other storage — the operands included — is unchanged.  Proof (QTheory.CplxOutR): the broadcasting traversal
+   factors through the pairing of the operands, so the four real products written into the buffer and the complex
+   product are all entrywise images of one tensor of operand pairs; no shape calculus.  The underlying lemma
+   scalar_mult_out_fresh_g holds for every number structure (NumOps T), in particular for the floating-point
+   instance of the extracted model, and is closed under the global context. *)
+Theorem C15_fresh_out_buffer : forall (h : @heap R) x y out (p : tens C),
+  b_id out <> b_id x -> b_id out <> b_id y -> b_store out <> b_store x -> b_store out <> b_store y ->
+  scalar_mult ROps (h (b_store x)) (h (b_store y)) = Ok p ->
+  tmap (fun _ => tt) (h (b_store out)) = tmap (fun _ => tt) p ->
+  exists h', scalar_mult_out ROps h x y out = Ok (h', out)
+             /\ h' (b_store out) = p
+             /\ (forall s, s <> b_store out -> h' s = h s).
+Proof. exact scalar_mult_out_fresh. Qed.
+Print Assumptions C15_fresh_out_buffer.
+
+(* ... and operands that do not broadcast are rejected with out= exactly as without it, whatever the buffer *)
+Theorem C15_out_buffer_rejects_non_broadcastable : forall (h : @heap R) x y out,
+  scalar_mult ROps (h (b_store x)) (h (b_store y)) = RuntimeErr ->
+  scalar_mult_out ROps h x y out = RuntimeErr.
+Proof. exact scalar_mult_out_fails_with_scalar_mult. Qed.
+Print Assumptions C15_out_buffer_rejects_non_broadcastable.
+
+(* non-vacuity with genuine broadcasting across ranks: a length-1 vector times a 2 x 2 matrix into a fresh 2 x 2 buffer *)
+Example C15_fresh_out_buffer_broadcast_hypotheses_satisfiable :
+  exists (h : @heap R) x y out p,
+    b_id out <> b_id x /\ b_id out <> b_id y /\ b_store out <> b_store x /\ b_store out <> b_store y /\
+    trank (h (b_store x)) <> trank (h (b_store y)) /\
+    scalar_mult ROps (h (b_store x)) (h (b_store y)) = Ok p /\
+    tmap (fun _ => tt) (h (b_store out)) = tmap (fun _ => tt) p /\
+    p = T2 [[Cmult (1, 2) (1, 0); Cmult (1, 2) (0, 1)]; [Cmult (1, 2) (2, 0); Cmult (1, 2) (0, 2)]].
+Proof. exact fresh_broadcast_hypotheses_satisfiable. Qed.
+
+(* ---------------------------------------------------------------- out= buffer of the WRONG shape *)
+(* A buffer whose shape is not the broadcast shape of the operands is rejected with an error, whatever it aliases
+   (the code's check out.shape != (2, *broadcast shape) -> RuntimeError, /repo d718730; before that repair torch
+   silently resized the temporary views and [out] came back holding a prefix of the product — found by this
+   work package's audit follow-up, recorded as fixed finding F-C15-out-wrong-shape).  Shape equality = equality
+   after erasing the entries. *)
+Theorem C15_rejects_wrong_shaped_out : forall (h : @heap R) x y out (p : tens C),
+  scalar_mult ROps (h (b_store x)) (h (b_store y)) = Ok p ->
+  tmap (fun _ => tt) (h (b_store out)) <> tmap (fun _ => tt) p ->
+  scalar_mult_out ROps h x y out = RuntimeErr.
+Proof. exact scalar_mult_out_fresh_wrong_shape. Qed.
+Print Assumptions C15_rejects_wrong_shaped_out.
+
+Example C15_rejects_wrong_shaped_out_hypotheses_satisfiable :
+  exists (h : @heap R) (x y out : bufref) (p : tens C),
+    scalar_mult ROps (h (b_store x)) (h (b_store y)) = Ok p /\
+    tmap (fun _ => tt) (h (b_store out)) <> tmap (fun _ => tt) p.
+Proof.
+  exists (fun s => match s with O => T1 [(1, 0); (0, 1)] | S O => T1 [(1, 0); (1, 0)] | _ => T1 [(5, 5)] end),
+         (mkBuf 0 0), (mkBuf 1 1), (mkBuf 2 2).
+  eexists. split; [reflexivity | cbn; discriminate].
+Qed.
